@@ -92,7 +92,8 @@ func main() {
 	fc, _ := os.Create(filepath.Join(*out, "cases.txt"))
 	fi, _ := os.Create(filepath.Join(*out, "impl.txt"))
 	ff, _ := os.Create(filepath.Join(*out, "findings.jsonl"))
-	wc, wi, wf := bufio.NewWriter(fc), bufio.NewWriter(fi), bufio.NewWriter(ff)
+	fd, _ := os.Create(filepath.Join(*out, "derived.txt"))
+	wc, wi, wf, wd := bufio.NewWriter(fc), bufio.NewWriter(fi), bufio.NewWriter(ff), bufio.NewWriter(fd)
 	tags := map[string]int{}
 	distinct := map[uint64]bool{}
 	nfind := 0
@@ -102,6 +103,9 @@ func main() {
 		fmt.Fprintln(wi, res.Obs)
 		for _, t := range res.Tags {
 			tags[t]++
+		}
+		for _, d := range res.Derived {
+			fmt.Fprintf(wd, "%d\t%s\n", i, d)
 		}
 		if res.Nontrivial {
 			hh := fnv.New64a()
@@ -118,6 +122,7 @@ func main() {
 	wc.Flush()
 	wi.Flush()
 	wf.Flush()
+	wd.Flush()
 	samples := lines
 	if len(samples) > 3 {
 		samples = []string{lines[0], lines[len(lines)/2], lines[len(lines)-1]}
